@@ -17,8 +17,12 @@ NA = {
 "C18":"table lookup against the installed toolchain; enumeration of paths, nothing to schedule or fault",
 "C19":"pure function of (Qual/Anon/preamble combination, prefix, hints)",
 }
-PENDING = {k:"simulation target per DESIGN.md; check not yet built (will be claimed once it runs)" for k in ["C09","C10","C20"]}
+PENDING = {k:"simulation target per DESIGN.md; check not yet built (will be claimed once it runs)" for k in ["C09","C20"]}
 CLAIMED = {
+"C10": dict(engine="filesim", cat="fault_enumeration", ref="DESIGN.md 5.6",
+  technique="deterministic simulation with fault injection: fault plans at the caller's io.Writer (error / short write at the k-th Write) and at the os boundary under File.Save (real ENOENT/EISDIR/ENOTDIR situations in a sandbox; injected EACCES/ENOSPC/EIO with partial writes), enumerated over a fixed grid and sampled by seed; reference = fault-free rebuild of the same history",
+  text="A fixed grid (5 trees x 7 entry points x every fault kind, 300 cells) is enumerated exhaustively on every run; beyond it trees, histories and fault plans are sampled by seed. A1: failed render => the writer got 0 bytes / the Save target is untouched; A2: a fired writer or filesystem fault => non-nil error; A3: success => writer content and saved file equal the bytes of an independent fault-free rebuild; A4: success/failure agrees with that rebuild when no fault fired.",
+  note="Filesystem faults are injected at the package-level os functions and *os.File methods the rewriter redirects (listed in evidence as os_calls_redirected; anything else is reported as unintercepted); contract-violating writers (short count with nil error) are not injected; nothing is claimed about the target's content after a failed write."),
 "C03": dict(engine="filesim", cat="exploration", ref="DESIGN.md 5.1",
   technique="deterministic simulation: seeded File-lifecycle histories (hint/Anon/prefix/add/render in any order) under simulator-chosen map order; each rendered File's import bindings resolved against fabricated packages (own resolver + go/types)",
   text="Seeded exploration of histories over a collision-rich universe of import paths. Every successfully rendered File is read back: the import block's bindings (alias, or the package's true declared name when no alias is written) must bind the qualifier in front of each workload symbol to the path it was built with, uniquely and consistently; go/types with fabricated packages gives a second opinion on scoping.",
